@@ -256,11 +256,36 @@ def main(seed, n, out):
         h.ac_obj.AllocationCandidates.get_by_requests = orig
 
 
+LAST_CASES = []
+
+
+def fixed_cases():
+    """groups WITHOUT resources (orphans) created by each kind of key, on both sides of 1.36 (resourceless groups need
+    same_subtree from there) and of the key's own introduction; run first on every run"""
+    out = []
+    orphan = [('required1', '!HW_CPU_X86_AVX'), ('required1', 'HW_CPU_X86_AVX'), ('required1', '!HW_CPU_X86_AVX,!STORAGE_DISK_SSD'),
+              ('member_of1', AG(2)), ('member_of1', '!' + AG(2)), ('member_of1', '!in:%s,%s' % (AG(2), AG(3))), ('in_tree1', RP(2)),
+              ('required_A', '!HW_CPU_X86_AVX'), ('required', '!HW_CPU_X86_AVX')]
+    for v in (24, 25, 30, 31, 32, 33, 35, 36, 39):
+        for k, val in orphan:
+            for base in ([('resources', 'VCPU:1')], [('resources2', 'VCPU:1'), ('group_policy', 'none')],
+                         [('resources', 'VCPU:1'), ('resources2', 'DISK_GB:1'), ('group_policy', 'isolate')]):
+                if k == 'required' and base[0][0] == 'resources':
+                    continue
+                out.append((v, base + [(k, val)]))
+                if v >= 36:
+                    out.append((v, base + [(k, val), ('same_subtree', k[len(k.rstrip('0123456789_A')):] or '1')]))
+    return out
+
+
 def _main(rng, n, out):
     cases = []
     stats = {'P400': 0, 'POk': 0, 'groups>1': 0, 'newline key accepted': 0, 'repeated key': 0, 'by version': {}}
-    for _ in range(n):
-        v, kv = gen_case(rng)
+    todo = fixed_cases()
+    del LAST_CASES[:]
+    for i in range(n + len(todo)):
+        v, kv = todo[i] if i < len(todo) else gen_case(rng)
+        LAST_CASES.append((v, kv))
         res = call_handler(kv, v)
         ok = res != 'P400'
         stats['POk' if ok else 'P400'] += 1
@@ -309,6 +334,10 @@ Definition cases : list (Z * qs * PRes squery * PRes query) := %s.
 Definition bad := filter (fun c => let '(v, kv, es, et) := c in
   negb (pres_eqb sq_eqb (decode_candidates_s v kv) es && pres_eqb q_eqb (dec v kv) et)) cases.
 Eval vm_compute in (length cases, length bad).
+Definition bad_idx := map fst (filter (fun ic => let '(v, kv, es, et) := snd ic in
+  negb (pres_eqb sq_eqb (decode_candidates_s v kv) es && pres_eqb q_eqb (dec v kv) et))
+  (combine (map Z.of_nat (seq 0 (length cases))) cases)).
+Eval vm_compute in (7777, firstn 5 bad_idx).
 Eval vm_compute in map (fun c => let '(v, kv, es, et) := c in (v, kv, decode_candidates_s v kv, es)) (firstn 2 bad).
 ''' % tuple([lst('(%s, %s)' % (cstr(k), z(t)) for k, t in T.items()) for T in (T_RP, T_AG, T_TR, T_RC, T_SF)] + [lst(cases)]))
     return stats
@@ -332,7 +361,22 @@ def run(seed, n):
         raise RuntimeError('cannot parse coqc output: %s' % p.stdout[-800:])
     n_cases, n_bad = int(m.group(1)), int(m.group(2))
     first = p.stdout[p.stdout.find(': nat * nat') + 11:][:3000] if n_bad else ''
+    mi = re.search(r'\(7777,\s*\[([^\]]*)\]', p.stdout)
+    stats['bad_cases'] = []
+    if mi and mi.group(1).strip():
+        import urllib.parse
+        for x in mi.group(1).split(';'):
+            v, kv = LAST_CASES[int(x.strip().replace('%Z', ''))]
+            stats['bad_cases'].append({'version': v, 'query': urllib.parse.urlencode(kv), 'answer': call_handler_status(kv, v)})
     return n_cases, n_bad, first, stats
+
+
+def call_handler_status(kv, v):
+    h.ac_obj.AllocationCandidates.get_by_requests, orig = staticmethod(fake), h.ac_obj.AllocationCandidates.get_by_requests
+    try:
+        return 'rejected (400)' if call_handler(kv, v) == 'P400' else 'accepted'
+    finally:
+        h.ac_obj.AllocationCandidates.get_by_requests = orig
 
 
 if __name__ == '__main__':
